@@ -27,7 +27,10 @@ Proof (Props/C15.lean, helper lemmas in Lemmas/LoadSpec.lean), for ALL images / 
  Not proved (stated limits): lazy = eager *with* a translation table on images that are not well-formed
  (there `stream_size = SIZE_MAX` makes every bound vacuous; in the model a short eager data read then
  leaves failbit set and later section headers are not read, while the lazy run reads them — outside the
- property's translation clause, which is claimed for well-formed images only; see ASSUMPTIONS).
+ property's translation clause, which is claimed for well-formed images only; see ASSUMPTIONS).  This is
+ machine-checked as `lazy_eager_translated_truncated_witness` and reproduced on the real code:
+ corpus/c15/f16-candidate-translated-truncated-container.case.txt (a CANDIDATE finding, deliberately not a
+ corpus case and not in known_findings.json: the integrator decides whether C15 claims it).
 Correspondence + oracle:
 object 0 loads the image eagerly, object 1 lazily and is then driven through a random interleaving of
 data requests and releases (length <= 24) before both are observed; object 2 loads a container
@@ -53,7 +56,7 @@ THEOREMS = ["ElfioVerif.C15.isolatedRead_state_independent", "ElfioVerif.C15.iso
             "ElfioVerif.C15.lazy_eq_eager_obs", "ElfioVerif.C15.lazy_eq_eager_needs_ok",
             "ElfioVerif.loadBody_rep", "ElfioVerif.load_gate_rep",
             "ElfioVerif.C15.represents_plain", "ElfioVerif.C15.load_eq_spec_tr",
-            "ElfioVerif.C15.translated_eq_plain"]
+            "ElfioVerif.C15.translated_eq_plain", "ElfioVerif.C15.lazy_eager_translated_truncated_witness"]
 SITES = ["conv", "load_s", "sec32_load", "sec64_load", "seg32_load", "seg64_load"]
 RULE = ("images: encoder-built well-formed (4 configurations), small bundled examples, and mutated images "
         "(tools/elfspec.mutate incl. truncation) — eager object vs lazy object under a random interleaving of "
